@@ -98,7 +98,9 @@ def classify(res, report):
         if not any(k in low for k in VERIFICATION_MSGS) and js and js.get('verification-results', {}).get('encountered-vir-error'):
             inconclusive = inconclusive or ('verus front-end error: ' + d.get('rendered', msg)[:600])
             continue
+        hint = any(a <= prim['line_start'] <= b for a, b in report.get('hint_ranges', []))
         failures.append({
+            'hint': hint,
             'message': msg,
             'obligation': hit['name'] if hit else None,
             'obligation_text': hit['text'] if hit else None,
@@ -117,6 +119,22 @@ def classify(res, report):
         if not ok and not failures and not inconclusive:
             inconclusive = 'verus reported failure without a classifiable diagnostic: ' + res['stderr'][-600:]
     return failures, inconclusive
+
+
+def error_sites(res, report):
+    """functions of the woven file that contain the primary span of a rustc / front-end error"""
+    out = set()
+    for d in res['diags']:
+        if d.get('level') != 'error' or not d.get('spans'):
+            continue
+        low = d.get('message', '').lower()
+        if any(k in low for k in VERIFICATION_MSGS):
+            continue
+        prim = next((s for s in d['spans'] if s.get('is_primary')), d['spans'][0])
+        for f in report['fn_ranges']:
+            if f['start'] <= prim['line_start'] <= (f['end'] or 10 ** 9):
+                out.add(f['path'])
+    return out
 
 
 def obligation_props(name):
@@ -215,11 +233,28 @@ def main():
     ev_path = os.path.join(VERIF, 'evidence', prop + '.json')
     os.makedirs(os.path.dirname(ev_path), exist_ok=True)
 
-    # 1. weave from the current working tree
-    try:
-        report = weave.build(a.repo, out)
-    except weave.LostAnchor as e:
-        inconclusive_exit(prop, a.repo, tier, 'weave: %s' % e)
+    # 1. weave from the current working tree.  If rustc / the Verus front end rejects the woven text INSIDE a function
+    #    extracted from the source (a construct outside the supported subset was introduced there), that function is
+    #    kept under its contract only and the crate is woven again (at most 3 rounds): only the properties whose chain
+    #    contains it become inconclusive.
+    modules = None if tier == 'thorough' else cfg['modules']
+    rlimit = 150 if tier == 'quick' else 300
+    forced = {}
+    for attempt in range(4):
+        try:
+            report = weave.build(a.repo, out, force_lost=forced)
+        except weave.LostAnchor as e:
+            inconclusive_exit(prop, a.repo, tier, 'weave: %s' % e)
+        res = run_verus(out, modules, rlimit, seed)
+        failures, inconclusive = classify(res, report)
+        if not (inconclusive and ('rustc error' in inconclusive or 'front-end' in inconclusive)):
+            break
+        src_fns = set(f['path'] for f in report['functions'] if f['kind'] == 'exec' and str(f.get('origin', '')).startswith('src/'))
+        sites = set(x for x in error_sites(res, report) if x in src_fns and x not in forced)
+        if not sites or attempt == 3:
+            break
+        for x in sites:
+            forced[x] = 'the verifier front end rejects the text of this function: ' + inconclusive[:200]
     fn_props = {f['path']: f['props'] for f in report['functions']}
     # functions whose annotations no longer applied (restructured): kept under contract only by the weaver.  A property
     # whose chain contains one of them cannot be decided by the verifier in this run (never an alarm); the others can.
@@ -227,11 +262,7 @@ def main():
     if lost_here:
         inconclusive_exit(prop, a.repo, tier, 'weave: ' + '; '.join(l['reason'] for l in lost_here)[:600])
 
-    # 2. verify
-    modules = None if tier == 'thorough' else cfg['modules']
-    rlimit = 150 if tier == 'quick' else 300
-    res = run_verus(out, modules, rlimit, seed)
-    failures, inconclusive = classify(res, report)
+    # 2. verify (done above; one retry with a larger resource limit)
     if inconclusive and 'resource limit' in inconclusive:
         res2 = run_verus(out, modules, rlimit * 4, seed + 1)
         f2, inc2 = classify(res2, report)
@@ -240,6 +271,15 @@ def main():
     runs = [res]
 
     rel = [f for f in failures if relevant(f, prop, fn_props)]
+    # A failure INSIDE ghost text that the contract files inserted (an `assert` or lemma call written as a proof hint)
+    # says that the hint no longer fits the code, not that a contract is violated: Verus assumes a failed assertion
+    # afterwards, so nothing can be concluded from what follows it either.  Hint failures alone are "undecided".
+    hint_fail = [f for f in rel if f.get('hint')]
+    rel = [f for f in rel if not f.get('hint')]
+    failures = [f for f in failures if not f.get('hint')]
+    if hint_fail and not rel:
+        inconclusive_exit(prop, a.repo, tier, 'a proof hint written for %s no longer goes through (%s): the proof is incomplete for the code as it is now'
+                          % (', '.join(sorted(set(f['site'] or '?' for f in hint_fail))), hint_fail[0]['message']))
     if inconclusive and not rel:
         inconclusive_exit(prop, a.repo, tier, inconclusive)
 
